@@ -102,6 +102,8 @@ class Run:
         self.rng = random.Random(seed)
         self.pkg = None
         self.timeout_s = 60 if tier == "quick" else 300
+        self.auto_fallback_samples = 12 if tier == "quick" else 60
+        self.auto_fallback_tol = 1e-9
         self.check_budget_s = 300 if tier == "quick" else 5400
         self.explore_budget_s = 90 if tier == "quick" else 1500     # per scenario instance; exceeding it is UNDECIDED, never a verdict
         self.replay_dir = os.path.join(VERIF, "replays", pid)
@@ -141,6 +143,7 @@ class Run:
         sname = scenario.__name__
         t0 = time.time()
         holder = {}
+        fallback = fallback or self._auto_fallback(label, scenario, params)
         if time.time() - self.t0 > self.check_budget_s:
             self.engine_failures.append((label, f"Undecided: the check's overall symbolic-execution budget ({self.check_budget_s}s) is used up"))
             if fallback:
@@ -210,6 +213,7 @@ class Run:
         canary = canary or set()
         sname = scenario.__name__
         t0 = time.time()
+        fallback = fallback or self._auto_fallback(label, scenario, params)
 
         def fn():
             M = SymMode(pkg)
@@ -286,6 +290,25 @@ class Run:
         except Exception as e:
             return list(M.failures), e, True, M
         return list(M.failures), None, True, M
+
+    def _auto_fallback(self, label, scenario, params):
+        """The generic bounded stand-in used when a scenario instance has none of its own: the same scenario text run
+        natively (real package, float64) on inputs invented per sample (rt.gen.AutoGiven).  It only ever runs for an
+        instance the engine left undecided (budget, unsupported construct), or for all when ICG_FORCE_FALLBACKS=1."""
+        count = self.auto_fallback_samples
+        if not count:
+            return None
+
+        def fb():
+            from rt import gen
+            lab = f"fallback.auto.{label}"
+            ok = self.bounded_run(lab, scenario, params, gen.auto_inputs(self.rng, params, count), tol=self.auto_fallback_tol,
+                                  bound=f"{count} samples with inputs invented on demand (random superadditive / SAM games, knowledge "
+                                        "masks, small integers); samples failing the scenario's precondition are skipped")
+            if ok and self.bounded[-1]["evaluations"] == 0:
+                return None        # nothing met the precondition: the stand-in did not run
+            return ok
+        return fb
 
     def bounded_run(self, label, scenario, params, inputs_iter, tol=1e-9, bound="", distinct_key=None):
         """Bounded stand-in: run the scenario natively over generated inputs."""
@@ -401,6 +424,9 @@ class Run:
     def run_fallbacks(self):
         """Bounded stand-ins for scenario instances the engine could not decide."""
         need = {lab for lab, _ in self.engine_failures} | {r.meta.get("label") for r in getattr(self, "undecided", [])}
+        really = set(need)
+        if os.environ.get("ICG_FORCE_FALLBACKS") == "1":       # self-test of the stand-ins on a tree where the proofs go through
+            need |= set(self.fallbacks)
         self.fallback_rows = []
         for lab in sorted(x for x in need if x):
             fb = self.fallbacks.get(lab)
@@ -408,6 +434,10 @@ class Run:
                 self.fallback_rows.append({"label": lab, "ran": False})
                 continue
             ok = fb()
+            if ok is None:
+                self.fallback_rows.append({"label": lab, "ran": False, "reason": "no generated input met the scenario's precondition",
+                                           "needed": lab in really})
+                continue
             self.fallback_rows.append({"label": lab, "ran": True, "held": bool(ok)})
 
     # -- finish -----------------------------------------------------------------------------
@@ -427,7 +457,7 @@ class Run:
         known_refuted = getattr(self, "known_refuted", 0)
         obligations = sum(1 for r in self.results if not r.want_sat) - known_refuted
         und = len(self.undecided)
-        unreplaced = [row for row in self.fallback_rows if not row.get("ran")]
+        unreplaced = [row for row in self.fallback_rows if not row.get("ran") and row.get("needed", True)]
         exit_code = 0
         if self.violations:
             exit_code = 1
